@@ -146,3 +146,54 @@ Theorem C15_source_guards : forall L N,
   rejects try_from_boxed_slice_guard (env1 "slice.len" L) N = negb (L =? N) /\
   fails_by_panic try_from_boxed_slice_guard = false.
 Proof. exact tie_heap_guards. Qed.
+
+(* ---- tier T3: the BODIES of into_boxed_slice, into_vec, try_from_boxed_slice, try_from_vec,
+   TryFrom<Vec<T>>, TryFrom<Box<[T]>>, From<GenericArray> for Box<[T]> and for Vec<T>
+   (src/impl_alloc.rs) as tools/ga2coq regenerates them on every run (coq/gen/GenHeap.v: the length
+   guard and one expression over Box::into_raw, pointer casts, slice_from_raw_parts_mut,
+   Box::from_raw, Vec::from, Vec::into_boxed_slice, Box::new and calls of the file's other
+   functions, every method call resolved from the declared types), run by the interpreter of
+   HeapProg.v over the allocator model, ARE the hub functions the theorems above are about: same
+   result, same allocator calls, same element events, from every allocator state ---- *)
+From GA Require Import HeapProg HeapTie.
+From GAGen Require Import GenHeap.
+Local Open Scope string_scope.
+
+Theorem C15_source_into_boxed_slice : forall fails T N b st, zlen (bel b) = Z.of_nat N ->
+  HeapProg.call fails T N gen_heap_table "into_boxed_slice" (VBoxA b) st =
+  (s <- into_boxed_slice b ;; ret (VBoxS s)) st.
+Proof. exact tie_into_boxed_slice. Qed.
+
+Theorem C15_source_into_vec : forall fails T N b st, zlen (bel b) = Z.of_nat N ->
+  HeapProg.call fails T N gen_heap_table "into_vec" (VBoxA b) st = (v <- into_vec b ;; ret (VVecV v)) st.
+Proof. exact tie_into_vec. Qed.
+
+Theorem C15_source_try_from_boxed_slice : forall fails T N s st,
+  HeapProg.call fails T N gen_heap_table "try_from_boxed_slice" (VBoxS s) st =
+  (r <- try_from_boxed_slice T N s ;; ret (opt_box r)) st.
+Proof. exact tie_try_from_boxed_slice. Qed.
+
+Theorem C15_source_try_from_vec : forall fails T N v st,
+  HeapProg.call fails T N gen_heap_table "try_from_vec" (VVecV v) st =
+  (r <- try_from_vec fails T N v ;; ret (opt_box r)) st.
+Proof. exact tie_try_from_vec. Qed.
+
+Theorem C15_source_vec_to_array : forall fails T N v st,
+  HeapProg.call fails T N gen_heap_table "TryFrom<Vec<T>>" (VVecV v) st =
+  (r <- vec_to_array T N v ;; ret (opt_arr r)) st.
+Proof. exact tie_vec_to_array. Qed.
+
+Theorem C15_source_boxed_slice_to_array : forall fails T N s st,
+  HeapProg.call fails T N gen_heap_table "TryFrom<Box<[T]>>" (VBoxS s) st =
+  (r <- boxed_slice_to_array T N s ;; ret (opt_arr r)) st.
+Proof. exact tie_boxed_slice_to_array. Qed.
+
+Theorem C15_source_array_to_boxed_slice : forall fails T N a st, zlen a = Z.of_nat N ->
+  HeapProg.call fails T N gen_heap_table "From<GenericArray> for Box<[T]>" (VArrV a) st =
+  (s <- array_to_boxed_slice fails T a ;; ret (VBoxS s)) st.
+Proof. exact tie_array_to_boxed_slice. Qed.
+
+Theorem C15_source_array_to_vec : forall fails T N a st, zlen a = Z.of_nat N ->
+  HeapProg.call fails T N gen_heap_table "From<GenericArray> for Vec<T>" (VArrV a) st =
+  (v <- array_to_vec fails T a ;; ret (VVecV v)) st.
+Proof. exact tie_array_to_vec. Qed.
